@@ -67,11 +67,12 @@ CHECKS = {
             'modification} is loaded with read_ff and compared in canonical form: members exactly once and in file order, atoms, attributes, '
             'edges, interactions with parameters/meta/versions, #meta, removal markers, non-edges, patterns, features, molmeta, variables, '
             'macro substitution. Likewise every sequence of <=3 (4) moleculetypes for read_itp (conditionals, #else, virtual_sitesn) and all '
-            'orders of three .map molecules (multiplicity and ! weights, several targets). Every listed fault (unknown section, undefined '
+            'orders of three .map molecules (multiplicity and ! weights, several targets) and every sequence of <=3 (4) mappings of a .mapping file '
+            '(shorthand, two-residue, longhand and modification mappings; integer weights, reference atoms, extra nodes and edges). Every listed fault (unknown section, undefined '
             'block atom by name / index N+1 / index 0 / edge, duplicate atom, unbalanced braces or conditionals, prefix/order contradiction, '
             'wrong atom count) is injected at every applicable line of every file of <=2 (3) chunks and must be rejected.',
-            'The documented grammar features one at a time inside fixed chunks, not all feature combinations; .mapping (modification mapping) '
-            'files and force-field-wide citations are not compared; one known finding (index 0 in .ff) is reported, not repaired.', '§4 C13'),
+            'The documented grammar features one at a time inside fixed chunks, not all feature combinations; force-field-wide '
+            'citations are not compared; one known finding (index 0 in .ff) is reported, not repaired.', '§4 C13'),
     'C06': ('B', 'bounded exhaustive enumeration of all labelled patterns x all graphs up to isomorphism x relabellings x colourings on the real ISMAGS, brute-force backtracking oracle with Aut(pattern) orbits',
             'model_checking',
             'All 75 labelled pattern graphs on <=4 nodes (thorough: all 1099 on <=5) against all 52 graphs on <=5 nodes (thorough 208 on <=6) '
